@@ -249,6 +249,12 @@ func tokenOf(s string) (token.Token, bool) {
 	return token.ILLEGAL, false
 }
 
+type posAnswer struct {
+	pos       *sym.Term
+	name      *Str
+	line, col *sym.Term
+}
+
 // l1Prog is the per-path interpreter-side handle.
 type l1Prog struct {
 	host     *l1Host
@@ -546,6 +552,35 @@ func registerL1Intrinsics() {
 	for _, n := range []string{"PoisonFiles", "PoisonInfo", "PoisonFset"} {
 		name := n
 		intrinsics[ndPkg+"."+name] = func(in *Interp, fn *ssa.Function, a []Value) Value { return poison("nd." + name) }
+	}
+	// nd.FsetFor: a file set whose Position() answers (name, line, col) for the returned symbolic position
+	intrinsics[ndPkg+".FsetFor"] = func(in *Interp, fn *ssa.Function, a []Value) Value {
+		fs := token.NewFileSet()
+		h := &HostV{reflect.ValueOf(fs)}
+		pos := in.St.Var(in.freshName("pos"), sym.SInt)
+		in.addPC(in.St.InRange(pos, 1, 1<<31-1))
+		if in.posOverride == nil {
+			in.posOverride = map[*token.FileSet]posAnswer{}
+		}
+		in.posOverride[fs] = posAnswer{pos: pos, name: a[0].(*Str), line: a[2].(*sym.Term), col: a[3].(*sym.Term)}
+		in.stubs["token.FileSet.Position for nd.FsetFor file sets: answers the (file, line, column) the harness chose for the symbolic position"] = true
+		return TupleV{h, pos}
+	}
+	intrinsics["(*go/token.FileSet).Position"] = func(in *Interp, fn *ssa.Function, a []Value) Value {
+		h, ok := a[0].(*HostV)
+		if !ok {
+			in.fail("FileSet.Position on %T", a[0])
+		}
+		fs := h.rv.Interface().(*token.FileSet)
+		if ans, ok := in.posOverride[fs]; ok {
+			p := a[1].(*sym.Term)
+			if p != ans.pos {
+				in.fail("FileSet.Position on an nd.FsetFor file set with a position other than the one handed out")
+			}
+			pt := in.P.LookupType("go/token", "Position").Underlying().(*types.Struct)
+			return &StructV{typ: pt, fields: []Value{ans.name, in.St.Int(0), ans.line, ans.col}}
+		}
+		return in.hostMethodCall(h, "Position", a[1:], fn.Signature.Results())
 	}
 	intrinsics[ndPkg+".LineOf"] = func(in *Interp, fn *ssa.Function, a []Value) Value {
 		src, needle := a[0].(*Str), a[1].(*Str)
